@@ -293,6 +293,44 @@ func init() {
 		},
 	})
 	p.Strata = append(p.Strata, mon.Stratum{
+		Name:       "determinism-yaml-reader",
+		N:          n(len(yamlHostile) + 6),
+		Exhaustive: always,
+		Run: func(c *mon.Ctx, i int) {
+			// reading the same YAML text again and again gives the same document or the same refusal
+			extraTexts := []string{"200: plain\n\"200\": quoted\n", "1: a\n\"1\": b\n1.0: c\n", "true: x\n\"true\": y\n", "a: 1\nA: 2\n", "? [1]\n: x\n? [1]\n: y\n", "k: &a {x: 1}\nj: *a\n"}
+			var text string
+			if i < len(yamlHostile) {
+				text = yamlHostile[i]
+			} else {
+				text = extraTexts[i-len(yamlHostile)]
+			}
+			c.Input("yaml", text)
+			c.Nontrivial("yaml" + text)
+			first := ""
+			for rep := 0; rep < 40; rep++ {
+				var out string
+				if pan := mon.Safe(func() {
+					n, err := jd.ReadYamlString(text)
+					if err != nil {
+						out = "error" // the wording of a refusal is not an output the property speaks about
+					} else {
+						out = n.Json() + "|" + n.Yaml()
+					}
+				}); pan != "" {
+					out = "panic"
+				}
+				c.Feature("determinism_recomputations")
+				if rep == 0 {
+					first = out
+				} else if out != first {
+					c.Violation("reading the same YAML text twice gives different results", map[string]any{"first": first, "later": out})
+					return
+				}
+			}
+		},
+	})
+	p.Strata = append(p.Strata, mon.Stratum{
 		Name: "determinism-across-processes",
 		CLI:  true,
 		N:    qt(120, 9000),
@@ -322,10 +360,14 @@ func init() {
 				return out
 			}
 			sa, sb := ref.ToJSON(objs(2)), ref.ToJSON(append(objs(2), objs(6)...))
-			for _, flag := range []string{"-set", "-mset"} {
+			for _, flag := range []string{"-set", "-mset", "-set -mset"} {
 				var first string
+				if flag == "-set -mset" {
+					// both flags: whichever wins, it must be the same one in every process (duplicates make the readings differ)
+					sa, sb = `{"tags":["a","a","b"]}`, `{"tags":["b","a"]}`
+				}
 				for rep := 0; rep < 4; rep++ {
-					r := RunCLI(c, BinV2, []string{flag, "sa.json", "sb.json"}, "", map[string]string{"sa.json": sa, "sb.json": sb})
+					r := RunCLI(c, BinV2, append(strings.Fields(flag), "sa.json", "sb.json"), "", map[string]string{"sa.json": sa, "sb.json": sb})
 					c.Feature("cross_process_runs")
 					if rep == 0 {
 						first = r.Stdout
